@@ -53,6 +53,13 @@ func buildStaking(seed int64) (*Scenario, error) {
 	rateOPR(106)
 	b.TxE(106, 107, "holder 0 diversifies", h(0), Conv(a(0), FCT, 300*fct, USD), Conv(a(0), FCT, 100*fct, EUR), Conv(a(0), FCT, 50*fct, XBT))
 	b.TxE(106, -2, "holder 6 converts everything into PEG: refused in 2.0", h(6), Conv(a(6), FCT, 100*fct, PEG))
+	// a holder of several assets in amounts that are not round: every asset's pUSD value has a fractional part, each
+	// is cut off on its own (the stake is the sum of the floors, not the floor of the sum)
+	JPY, GBP, CAD := fat2.PTickerJPY, fat2.PTickerGBP, fat2.PTickerCAD
+	b.TxE(106, 107, "holder 0: three more assets", h(0), Conv(a(0), FCT, 30*fct, JPY), Conv(a(0), FCT, 30*fct, GBP), Conv(a(0), FCT, 30*fct, CAD))
+	b.TxE(108, 108, "odd amounts of five assets to holder 13", h(0),
+		Xfer(a(0), EUR, 100000001+uint64(rng.Intn(4)), a(13)), Xfer(a(0), XBT, 100000003, a(13)), Xfer(a(0), JPY, 100000001+uint64(rng.Intn(4)), a(13)),
+		Xfer(a(0), GBP, 100000002+uint64(rng.Intn(4)), a(13)), Xfer(a(0), CAD, 100000003+uint64(rng.Intn(4)), a(13)))
 	rateOPR(107)
 	b.TxE(108, 108, "holder 5 sends PEG-less funds to the amount-0 address", h(5), Xfer(a(5), FCT, 0, a(7)))
 	// the whale hides until after the second snapshot: everything sits on a side address and comes back later
